@@ -20,6 +20,18 @@
 //   - mem=ok is the model's own check that the memory its Put machine leaves holds exactly the tree the
 //     functional `put` produces (so the insertion path used by the negative witness is validated too).
 //
+// `accrange lo hi n` / `accrrange lo hi n` (bounds u / i<k> / e<k>): the range reader of the access-level model
+// (Range / RangeReverse, then up to n calls of Next, run alone) prints
+//
+//	keys=<second arguments of the comparator calls> vals=<pos:slot of every value slot read> items=<k:v,...>
+//	writes=- ret=<end|more> func=ok
+//
+// and this harness derives from the real code: keys from the recording comparator (find's comparisons, the
+// comparison that decides whether the seek steps, one in-range test per Next), items = what Next returned, vals = the
+// slots of the hook dump holding the yielded keys (so a model that read one value slot more - the first key beyond
+// the far bound, defect D18 - or less would differ), writes = dump diff (must be empty), ret. `func=ok` is the model's
+// own check that the access machine yields what the functional model's range/rangeReverse + iterNext yield.
+//
 // A Put that splits (`ret=unmodelled` on the model side) is outside the access-level model: only its
 // return is compared. Every difference is a broken tie (source "correspondence"), kind
 // tree-access-<what>-differs.
@@ -184,6 +196,30 @@ func (im *impl) slotOf(d dump, k int) string {
 	return "-"
 }
 
+// slotOfExact finds the live slot holding exactly the key k (the stored key object an iterator yields).
+func (im *impl) slotOfExact(d dump, k int) string {
+	for p := range d.Nodes {
+		n := &d.Nodes[p]
+		for i := 0; i < n.N && i < len(n.Keys); i++ {
+			if n.Keys[i] == k {
+				return fmt.Sprintf("%d:%d", p, i)
+			}
+		}
+	}
+	return "?"
+}
+
+func parseBound(s string) tree.Bound[int] {
+	if s == "u" {
+		return tree.Unbounded[int]()
+	}
+	k, _ := strconv.Atoi(s[1:])
+	if s[0] == 'i' {
+		return tree.Included(k)
+	}
+	return tree.Excluded(k)
+}
+
 func (im *impl) step(line string) string {
 	f := strings.Fields(line)
 	arg := func(i int) int { v, _ := strconv.Atoi(f[i]); return v }
@@ -217,6 +253,32 @@ func (im *impl) step(line string) string {
 		keys := append([]int(nil), im.rec.keys...)
 		after := im.m.VerifShape()
 		return fmt.Sprintf("keys=%s val=%s writes=%s ret=%s", joinInts(keys), val, joinStrs(diff(before, after)), ret)
+	case len(f) == 4 && (f[0] == "accrange" || f[0] == "accrrange"):
+		lo, hi, limit := parseBound(f[1]), parseBound(f[2]), arg(3)
+		before := im.m.VerifShape()
+		im.rec.reset()
+		var it interface {
+			Next() (tree.KVPair[int, int], bool)
+		}
+		if f[0] == "accrange" {
+			it = im.m.Range(lo, hi)
+		} else {
+			it = im.m.RangeReverse(lo, hi)
+		}
+		var items, vals []string
+		ret := "more"
+		for i := 0; i < limit; i++ {
+			kv, ok := it.Next()
+			if !ok {
+				ret = "end"
+				break
+			}
+			items = append(items, fmt.Sprintf("%d:%d", kv.Key, kv.Value))
+			vals = append(vals, im.slotOfExact(before, kv.Key))
+		}
+		keys := append([]int(nil), im.rec.keys...)
+		after := im.m.VerifShape()
+		return fmt.Sprintf("keys=%s vals=%s writes=%s items=%s ret=%s func=ok", joinInts(keys), joinStrs(vals), joinStrs(diff(before, after)), joinStrs(items), ret)
 	case len(f) == 3 && f[0] == "accput":
 		k, v := arg(1), arg(2)
 		before := im.m.VerifShape()
@@ -289,6 +351,16 @@ func judge(op, impl, model string, res *vlib.Result) (what, why string) {
 		return "", ""
 	}
 	a, b := fields(impl), fields(model)
+	if op == "accrange" || op == "accrrange" {
+		res.Count("range-probe-" + a["ret"])
+		for _, fld := range []struct{ key, what string }{{"ret", "result"}, {"items", "result"}, {"keys", "read-set"}, {"vals", "value-slot"},
+			{"writes", "write-footprint"}, {"func", "functional-model"}} {
+			if a[fld.key] != b[fld.key] {
+				return fld.what, fmt.Sprintf("range reader, %s: impl %s, model %s", fld.key, a[fld.key], b[fld.key])
+			}
+		}
+		return "", ""
+	}
 	if b["ret"] == "unmodelled" {
 		// a Put that has to split a full leaf is outside the access-level model
 		res.Count("put-overfill-skipped")
@@ -412,11 +484,38 @@ func genCase(r *vlib.Rand) []string {
 				isPresent = true
 			}
 		}
-		switch r.Pick(3, 2, 4) {
+		switch r.Pick(3, 2, 4, 3) {
 		case 0:
 			lines = append(lines, fmt.Sprintf("accget %d", k))
 		case 1:
 			lines = append(lines, fmt.Sprintf("acchas %d", k))
+		case 3:
+			// a range reader: bounds on / next to stored keys, in any order; the reader stops after `limit` items
+			bound := func(k int) string {
+				switch r.Intn(5) {
+				case 0:
+					return "u"
+				case 1, 2:
+					return fmt.Sprintf("i%d", k)
+				}
+				return fmt.Sprintf("e%d", k)
+			}
+			k2 := k + step*r.Range(0, 12)
+			if len(keys) > 0 && r.Chance(1, 2) {
+				k2 = keys[r.Intn(len(keys))]
+			}
+			if k2 < k && r.Chance(4, 5) {
+				k, k2 = k2, k
+			}
+			limit := r.Range(0, 20)
+			if r.Chance(1, 3) {
+				limit = n + 3
+			}
+			cmd := "accrange"
+			if r.Bool() {
+				cmd = "accrrange"
+			}
+			lines = append(lines, fmt.Sprintf("%s %s %s %d", cmd, bound(k), bound(k2), limit))
 		default:
 			fresh++
 			lines = append(lines, fmt.Sprintf("accput %d %d", k, fresh))
